@@ -581,6 +581,28 @@ def replay_comparator():
 # ------------------------------------------------------------------------------------------------
 # C16 (normalisation in `new`, which Kani's float division cannot decide)
 # ------------------------------------------------------------------------------------------------
+def replay_cat_new(model=None):
+    import random
+    rnd = random.Random(3)
+    tried = []
+    for w in ([0.1, 0.1, 0.2], [0.25, 0.0, 0.25], [0.5], [1.0, 2.0, 5.0], [0.0, 3.0], [rnd.uniform(0, 0.3) for _ in range(4)]):
+        case = {"case": "categorical_new", "weights": w}
+        nat = native(case)
+        s = sum(w)
+        bad = []
+        for prof, r in nat.items():
+            if isinstance(r, dict) and "probs" in r:
+                pr = [float(str(x).replace("NaN", "nan")) for x in r["probs"]]
+                if len(pr) != len(w) or any(not approx_eq(p, x / s, 1e-12, 1e-12) for p, x in zip(pr, w)) or not approx_eq(sum(pr), 1.0, 1e-9, 1e-9):
+                    bad.append(prof)
+            elif isinstance(r, dict) and r.get("panic"):
+                bad.append(prof)
+        tried.append({"case": case, "native": nat})
+        if bad:
+            return True, {"case": case, "native": nat, "reproduced_in": bad}
+    return False, {"tried": tried[:2]}
+
+
 def c16_new(out, tier, seed):
     eng = mir_load.load_engine()
     lens = [1, 2, 3, 4] if tier == "quick" else [1, 2, 3, 4, 6, 8]
@@ -608,14 +630,14 @@ def c16_new(out, tier, seed):
             w, s, c = res
             probs = c.get("probs")
             ok = isinstance(probs, RVec) and len(probs.items) == n
-            u.holds(ctx, "new stores one probability per weight", ok, None, "len=%d" % n)
+            u.holds(ctx, "new stores one probability per weight", ok, replay_cat_new, "len=%d" % n)
             if not ok:
                 continue
             tot = None
             for i in range(n):
-                u.equal(ctx, "stored probability equals weight / sum of weights", probs.items[i], w[i] / s, None, "len=%d" % n)
+                u.equal(ctx, "stored probability equals weight / sum of weights", probs.items[i], w[i] / s, replay_cat_new, "len=%d" % n)
                 tot = probs.items[i] if tot is None else tot + probs.items[i]
-            u.equal(ctx, "stored probabilities sum to one", tot, Num(1), None, "len=%d" % n)
+            u.equal(ctx, "stored probabilities sum to one", tot, Num(1), replay_cat_new, "len=%d" % n)
     u.done()
 
 
@@ -682,3 +704,83 @@ def replay_ess_factory(m, n, p, d, xs):
                 return True, {"case": case, "native": nat, "spec_ess": want, "reproduced_in": bad}
         return False, {"tried": tried[:2]}
     return replay
+
+
+# ------------------------------------------------------------------------------------------------
+# C11: run summary (basic_stats) over the reals: min / max / median / mean / std of the finite values
+# ------------------------------------------------------------------------------------------------
+def c11_summary(out, tier, seed):
+    eng = mir_load.load_engine()
+    sizes = [1, 3, 4] if tier == "quick" else [1, 2, 3, 4, 5]
+    u = MUnit(out, "C11", "c11_summary", eng, functions=["stats::basic_stats (+ comparator closure)"],
+              bounds=["%s finite values, every ordering of them a path" % sizes],
+              assumptions=R_ASSUME + ["sort_by is a stable comparison sort driven by the given comparator (modelled as insertion sort "
+                                      "calling the real comparator closure)"],
+              out_of_scope=["f32 rounding of mean/std", "non-finite values (comparator totality is a separate unit)"])
+
+    def sort_by(e, callee, args):
+        sl = args[0]
+        while isinstance(sl, Ref):
+            sl = sl.get()
+        items = sl.items
+        for i in range(1, len(items)):
+            j = i
+            while j > 0:
+                r = e.call_closure(args[1], [Ref(items, j - 1), Ref(items, j)])
+                if r.variant == "Greater":
+                    items[j - 1], items[j] = items[j], items[j - 1]
+                    j -= 1
+                else:
+                    break
+        return Tuple([])
+
+    class SliceOf:
+        pass
+    # as_slice_mut must alias the array: sort in a Vec, write back afterwards
+    backing = {}
+
+    def as_slice_mut(e, callee, args):
+        a = args[0]
+        while isinstance(a, Ref):
+            a = a.get()
+        v = RVec(list(a.a.reshape(-1)))
+        backing["arr"], backing["vec"] = a, v
+        return mirsym.Some(Ref.to(v))
+    eng.override(r"impl_methods::<impl ArrayBase<.*>>::as_slice_mut$", as_slice_mut)
+
+    def sort_and_write_back(e, callee, args):
+        r = sort_by(e, callee, args)
+        arr, v = backing["arr"], backing["vec"]
+        for i, x in enumerate(v.items):
+            arr.a.reshape(-1)[i] = x
+        return r
+    eng.override(r"^std::slice::<impl \[f32\]>::sort_by::<|^core::slice::<impl \[f32\]>::sort_by::<", sort_and_write_back)
+    for n in sizes:
+        def run(ctx, n=n):
+            xs = [ctx.fresh_real("v") for _ in range(n)]
+            st = eng.call_fn("basic_stats", [Opaque("name"), ND(obj_array(list(xs), (n,)))])
+            return xs, st
+        for ctx, res in eng.explore(run, max_paths=2000):
+            u.paths += 1
+            if isinstance(res, Exception):
+                out.inconclusive.append("c11_summary n=%d: %r" % (n, res))
+                continue
+            xs, st = res
+            inst = "%d values" % n
+            zs = [x.z() for x in xs]
+            mn, mx, med = st.get("min").z(), st.get("max").z(), st.get("median").z()
+            u.holds(ctx, "summary min / max are the true minimum and maximum",
+                    z3.And(z3.And([mn <= z for z in zs]), z3.Or([mn == z for z in zs]), z3.And([mx >= z for z in zs]), z3.Or([mx == z for z in zs])),
+                    None, inst)
+            le = z3.Sum([z3.If(z <= med, 1, 0) for z in zs])
+            ge = z3.Sum([z3.If(z >= med, 1, 0) for z in zs])
+            u.holds(ctx, "summary median is a middle order statistic", z3.And(z3.Or([med == z for z in zs]), le >= (n + 1) // 2, ge >= n // 2, le + ge >= n + 1), None, inst)
+            mu = mean(xs)
+            u.equal(ctx, "summary mean is the arithmetic mean", st.get("mean"), mu, None, inst)
+            if n >= 2:
+                ss = None
+                for x in xs:
+                    dd = (x - mu) * (x - mu)
+                    ss = dd if ss is None else ss + dd
+                u.equal(ctx, "summary std is the sample standard deviation (ddof 1)", st.get("std"), sqrt(ss / (n - 1)), None, inst)
+    u.done()
